@@ -49,7 +49,8 @@ def _chunk(job):
             "violations": [],
             "digests": {}, "samples": [], "faulty_runs": 0, "faultfree_runs": 0,
             "viol_in_faulty": 0, "viol_in_faultfree": 0, "harness_errors": [],
-            "leftover_streams": 0, "extra": {},
+            "leftover_streams": 0, "extra": {}, "known": {}, "known_counts": {},
+            "known_only_runs": 0, "unknown_violating_runs": 0,
         }
         for run in job["runs"]:
             plan = eng.make_plan(job["seed"], run)
@@ -80,30 +81,58 @@ def _chunk(job):
             if res["violations"]:
                 out["violating_runs"] += 1
                 out["viol_in_faulty" if faulty else "viol_in_faultfree"] += 1
-                if len(out["violations"]) < job.get("max_viol", 2):
-                    v = res["violations"][0]
-                    cls = eng.violation_class(v)
-
-                    def still(p, cls=cls):
-                        r = eng.run_plan(p)
-                        return any(eng.violation_class(x) == cls for x in r["violations"])
-
-                    small, tries = _min.minimise(plan, still, eng.shrink_candidates,
-                                                 budget=job.get("min_budget", 300))
-                    r2 = eng.run_plan(small, deep=True)
-                    vs = [x for x in r2["violations"] if eng.violation_class(x) == cls]
-                    out["violations"].append({
-                        "seed": job["seed"], "run": run, "violation": vs[0] if vs else v,
-                        "class": list(cls), "plan": small, "original_plan": plan,
-                        "minimise_tries": tries, "digest": r2["digest"],
-                        "reproduced_in_worker": bool(vs),
-                    })
+                unknown, known_hits = [], {}
+                for v in res["violations"]:
+                    kf = eng.is_known(v, plan)
+                    if kf is None:
+                        unknown.append(v)
+                    else:
+                        known_hits.setdefault(kf["id"], v)
+                if known_hits and not unknown:
+                    out["known_only_runs"] += 1
+                for kid, v in known_hits.items():
+                    out["known_counts"][kid] = out["known_counts"].get(kid, 0) + 1
+                    if kid not in out["known"]:
+                        out["known"][kid] = _minimised(eng, job, run, plan, v, want_known=kid)
+                if unknown:
+                    out["unknown_violating_runs"] += 1
+                    if len(out["violations"]) < job.get("max_viol", 2):
+                        out["violations"].append(
+                            _minimised(eng, job, run, plan, unknown[0], want_known=None))
         out["sigs"] = sorted(out["sigs"])
         out["sigs_nt"] = sorted(out["sigs_nt"])
         out["where"] = sorted(out["where"])
         return out
     finally:
         faulthandler.cancel_dump_traceback_later()
+
+
+def _minimised(eng, job, run, plan, v, want_known):
+    """Shrink ``plan`` while a violation of the same class (and the same known-finding
+    status) persists; re-run the result with a deep log for the replay digest."""
+    cls = eng.violation_class(v)
+
+    def hits(r, p):
+        out = []
+        for x in r["violations"]:
+            if eng.violation_class(x) != cls:
+                continue
+            kf = eng.is_known(x, p)
+            if (kf["id"] if kf else None) == want_known:
+                out.append(x)
+        return out
+
+    def still(p):
+        return bool(hits(eng.run_plan(p), p))
+
+    small, tries = _min.minimise(plan, still, eng.shrink_candidates,
+                                 budget=job.get("min_budget", 300))
+    r2 = eng.run_plan(small, deep=True)
+    vs = hits(r2, small)
+    return {"seed": job["seed"], "run": run, "violation": vs[0] if vs else v,
+            "class": list(cls), "plan": small, "original_plan": plan,
+            "minimise_tries": tries, "digest": r2["digest"],
+            "reproduced_in_worker": bool(vs), "known": want_known}
 
 
 class HarnessFailure(Exception):
@@ -128,6 +157,7 @@ def run_batch(engine_name, opts, seed, runs, workers=None, chunk=40, deep=False,
         "digests": {}, "samples": [], "faulty_runs": 0, "faultfree_runs": 0,
         "viol_in_faulty": 0, "viol_in_faultfree": 0, "harness_errors": [],
         "leftover_streams": 0, "extra": {}, "workers": workers, "skipped_runs": 0,
+        "known": {}, "known_counts": {}, "known_only_runs": 0, "unknown_violating_runs": 0,
     }
     t0 = time.time()
     ctx = multiprocessing.get_context("fork")
@@ -144,10 +174,12 @@ def run_batch(engine_name, opts, seed, runs, workers=None, chunk=40, deep=False,
             done += 1
             for k in ("runs", "events", "ops", "violating_runs", "faulty_runs",
                       "faultfree_runs", "viol_in_faulty", "viol_in_faultfree",
-                      "leftover_streams"):
+                      "leftover_streams", "known_only_runs", "unknown_violating_runs"):
                 merged[k] += r[k]
-            for k in ("probes", "faults", "stats", "extra"):
+            for k in ("probes", "faults", "stats", "extra", "known_counts"):
                 _add(merged[k], r[k])
+            for kid, rec in r["known"].items():
+                merged["known"].setdefault(kid, rec)
             merged["sigs"].update(r["sigs"])
             merged["sigs_nt"].update(r["sigs_nt"])
             merged["where"].update(r["where"])
